@@ -522,7 +522,7 @@ func crossCheck(conj []*Term) (string, string) {
 	for _, a := range asserts {
 		body.WriteString("(assert " + a + ")\n")
 	}
-	ctx, cancel := context.WithTimeout(context.Background(), 30*time.Second)
+	ctx, cancel := context.WithTimeout(context.Background(), 20*time.Second)
 	defer cancel()
 	cmd := exec.CommandContext(ctx, "cvc5", "--lang=smt2")
 	cmd.Stdin = strings.NewReader("(set-logic ALL)\n" + body.String() + "(check-sat)\n")
